@@ -498,5 +498,14 @@ def i_signed_by(I, args, ins):
     return cond
 
 
+@intrinsic('verifParseAssertionBytes')
+def i_parse_bytes(I, args, ins):
+    ctx = I.ctx
+    info = bytes_info(I, args[0])
+    if info is not None and info[0] == 'serialize' and info[1] is not None:
+        return ctx.force(I.call_function('(' + EL + ').Copy', [info[1]]))
+    return None
+
+
 def install(prog):
     pass
